@@ -259,7 +259,9 @@ static uint64_t run_lp(const TinyLP& t, const ConfigSpace::Cfg& cfg, Ctx& c)
 }
 
 // FORCEBASIC exact solve: rational primal/dual are exactly the basic solution of the returned basis
-static uint64_t run_forcebasic(const TinyLP& t, Ctx& c)
+// variant bits: 1 = equality transformation on, 2 = simplifier off
+static const char* FBTAG[] = {"", "@eqtrans=1", "@simplifier=0", "@eqtrans=1,simplifier=0"};
+static uint64_t run_forcebasic(const TinyLP& t, Ctx& c, int variant = 0)
 {
    XLP x = t.exact();
    if(x.m > 0 && x.n > 0 && x.A[0][0] != 0) x.A[0][0] = Q(1, 3);
@@ -271,6 +273,8 @@ static uint64_t run_forcebasic(const TinyLP& t, Ctx& c)
    spx.setRealParam(SoPlex::FEASTOL, 0.0);
    spx.setRealParam(SoPlex::OPTTOL, 0.0);
    spx.setBoolParam(SoPlex::FORCEBASIC, true);
+   if(variant & 1) spx.setBoolParam(SoPlex::EQTRANS, true);
+   if(variant & 2) spx.setIntParam(SoPlex::SIMPLIFIER, SoPlex::SIMPLIFIER_OFF);
    load_real(spx, t, 0);
    if(x.m > 0 && x.n > 0 && x.A[0][0] != 0) spx.changeElementRational(0, 0, Rational(x.A[0][0].get_mpq_t()));
    int st = (int)spx.optimize();
@@ -285,9 +289,10 @@ static uint64_t run_forcebasic(const TinyLP& t, Ctx& c)
    std::vector<int> basic;
    for(int j = 0; j < n; ++j) { bs.stat[j] = (int)cs[j]; if(cs[j] == SPxSolver::BASIC) basic.push_back(j); }
    for(int i = 0; i < m; ++i) { bs.stat[n + i] = (int)rs[i]; if(rs[i] == SPxSolver::BASIC) basic.push_back(n + i); }
-   std::string cstr = t.str();
-   if((int)basic.size() != m) { c.violation("forcebasic:basis-count", cstr, ""); return st; }
-   if(!basic_solution(x, basic, bs)) { c.violation("forcebasic:singular-basis", cstr, ""); return st; }
+   std::string cstr = t.str() + "#fb:" + std::to_string(variant);
+   const std::string tag = FBTAG[variant & 3];
+   if((int)basic.size() != m) { c.violation("forcebasic:basis-count" + tag, cstr, ""); return st; }
+   if(!basic_solution(x, basic, bs)) { c.violation("forcebasic:singular-basis" + tag, cstr, ""); return st; }
    VectorRational px(n), py(m);
    spx.getPrimalRational(px);
    spx.getDualRational(py);
@@ -295,13 +300,13 @@ static uint64_t run_forcebasic(const TinyLP& t, Ctx& c)
    {
       Q got(px[j].backend().data());
       got.canonicalize();
-      if(got != bs.x[j]) { c.violation("forcebasic:primal-not-basic-solution", cstr, "x" + std::to_string(j) + " = " + got.get_str() + " but the basis gives " + bs.x[j].get_str() + " rows " + stat_str(rs) + " cols " + stat_str(cs)); return st; }
+      if(got != bs.x[j]) { c.violation("forcebasic:primal-not-basic-solution" + tag, cstr, "x" + std::to_string(j) + " = " + got.get_str() + " but the basis gives " + bs.x[j].get_str() + " rows " + stat_str(rs) + " cols " + stat_str(cs)); return st; }
    }
    for(int i = 0; i < m; ++i)
    {
       Q got(py[i].backend().data());
       got.canonicalize();
-      if(got != bs.y[i]) { c.violation("forcebasic:dual-not-basic-solution", cstr, "y" + std::to_string(i) + " = " + got.get_str() + " but the basis gives " + bs.y[i].get_str() + " rows " + stat_str(rs) + " cols " + stat_str(cs)); return st; }
+      if(got != bs.y[i]) { c.violation("forcebasic:dual-not-basic-solution" + tag, cstr, "y" + std::to_string(i) + " = " + got.get_str() + " but the basis gives " + bs.y[i].get_str() + " rows " + stat_str(rs) + " cols " + stat_str(cs)); return st; }
    }
    c.count("forcebasic_checked");
    return st;
@@ -330,6 +335,7 @@ int main(int argc, char** argv)
       TinyLP t = TinyLP::parse(cs.substr(0, h));
       mallopt(M_PERTURB, 85);
       if(h == std::string::npos) return replay_case([&](Ctx & c) { run_forcebasic(t, c); });
+      if(cs.compare(h + 1, 3, "fb:") == 0) { int v = atoi(cs.c_str() + h + 4); return replay_case([&](Ctx & c) { run_forcebasic(t, c, v); }); }
       ConfigSpace::Cfg cfg = g_cs.parse(cs.substr(h + 1));
       return replay_case([&](Ctx & c) { run_lp(t, cfg, c); });
    }
@@ -355,21 +361,23 @@ int main(int argc, char** argv)
       return run_lp(t, cfgs[idx % NC], c);
    }, [&](uint64_t idx, uint64_t) { TinyLP t; lpAt(idx / NC, t); return t.str() + "#" + g_cs.str(cfgs[idx % NC]); }, o,
    [&](uint64_t idx, uint64_t sub) { return "@" + std::string(sub >= 5000 ? "after-modification" : sub >= 1000 ? "setBasis" : sub >= 100 ? "iterlimit-solve" : "solve") + "|" + g_cs.str(cfgs[idx % NC]); });
-   uint64_t stride2 = thorough ? 3 : 17;
-   rep.phase("FORCEBASIC exact solves", fs.total / stride2, [&](uint64_t idx, int, Ctx & c) -> uint64_t
+   uint64_t stride2 = thorough ? 2 : 7;
+   rep.phase("FORCEBASIC exact solves x {eqtrans} x {simplifier}", fs.total / stride2, [&](uint64_t idx, int, Ctx & c) -> uint64_t
    {
       TinyLP t;
       uint64_t raw = idx * stride2, lim = std::min<uint64_t>(raw + stride2, fs.total);
       while(raw < lim && !fs.get(raw, t)) ++raw;
       if(raw >= lim) return 0;
-      return run_forcebasic(t, c);
-   }, [&](uint64_t idx, uint64_t)
+      uint64_t h = 0;
+      for(int v = 0; v < 4; ++v) { set_sub(v); h = h * 7 + run_forcebasic(t, c, v); }
+      return h;
+   }, [&](uint64_t idx, uint64_t sub)
    {
       TinyLP t;
       uint64_t raw = idx * stride2, lim = std::min<uint64_t>(raw + stride2, fs.total);
       while(raw < lim && !fs.get(raw, t)) ++raw;
-      return t.str();
-   }, o);
+      return t.str() + "#fb:" + std::to_string(sub & 3);
+   }, o, [&](uint64_t, uint64_t sub) { return std::string("@forcebasic") + FBTAG[sub & 3]; });
    auto& C = rep.all.counters;
    rep.evaluations = C["lp_x_cfg"] + C["iterlimit_solves"] + C["setbasis_calls"] + C["modifications"] + C["forcebasic_solves"];
    rep.rule = "a history = (LP, parameter vector) followed by one of: unlimited solve; solve with ITERLIMIT j for every j below the unlimited iteration count; "
